@@ -492,6 +492,9 @@ def check(ctx):
             else:
                 optkey = '%d-options:%s' % (len(other), r['cid'])
             key = '%s|%s|%s' % (kind, 'PAWN' if r['lang'] == 'PAWN' else 'any', optkey)
+            if kind.startswith('eat-'):
+                # the hand-written hosts are a fixed universe of their own: what holds there is keyed apart from corpus shapes
+                key += '|host:' + r['cid'].split(':')[-1] if ':host:' in r['cid'] else '|corpus'
             if key in seen:
                 continue
             seen.add(key)
